@@ -86,6 +86,17 @@ def check_hull(case, ctx):
     if case.get("moved"):
         # a second shape: a translated copy; each of the two keeps to its own control net
         vec = [[0.0, 0.0, 0.0, 0.0], [64.0, -32.0, 16.0, 8.0], [-0.5, 1024.0, 0.25, -256.0]][case["moved"]][:dim]
+        if case["moved"] == 1:
+            mv = operations.scale(obj, 2.0)          # another way to a second shape: a scaled copy
+            P2x = [[c * 2.0 for c in p] for p in P]
+            mbbx = mv.bbox
+            for i in range(dim):
+                ctx.check(mbbx[0][i] == min(p[i] for p in P2x) and mbbx[1][i] == max(p[i] for p in P2x), "bbox-not-control-net-extent",
+                          "bbox of a scaled copy is %r but its control points span [%r, %r] on axis %d" % (mbbx, min(p[i] for p in P2x), max(p[i] for p in P2x), i))
+            if not d.get("unclamped"):
+                mv.delta = 0.5
+                e0 = mv.evalpts[0]
+                ctx.check(all(abs(a - b) <= 1e-12 * 2 * big for a, b in zip(e0, P2x[0])), "clamped-start", "a scaled copy starts at %r, its first control point is %r" % (e0, P2x[0]))
         mv = operations.translate(obj, vec)
         P2 = [[c + t for c, t in zip(p, vec)] for p in P]
         mbb = mv.bbox
@@ -106,6 +117,10 @@ def check_hull(case, ctx):
             operations.translate(obj, vec, inplace=True)
             P = P2
             ctx.label("translated-in-place-after-reads")
+            bbm = obj.bbox
+            for e in obj.evalpts:          # read straight away, before any density change
+                ctx.check(all(bbm[0][i] - 1e-9 * (big + 1024) <= e[i] <= bbm[1][i] + 1e-9 * (big + 1024) for i in range(dim)), "evalpt-outside-bbox",
+                          "after an in-place translation the sampled point %r lies outside the bounding box %r" % (e, bbm))
     # bounding box of the control net contains every sampled point
     bb = obj.bbox
     ctx.check(len(bb) == 2 and len(bb[0]) == dim and len(bb[1]) == dim, "bbox-shape", "bbox = %r" % (bb,))
